@@ -12,6 +12,8 @@ DRIVERS = {
     'pp_reader': {'src': 'replay/drivers/pp_reader.cpp', 'flags': [], 'search_arg': '7'},
     'call_binary': {'vm': 'call_binary'},
     'sqf_yylex': {'vm': 'sqf_yylex'},
+    'array_ops': {'vm': 'array_ops'},
+    'operators_total': {'vm': 'operators_total'},
     'runtime_core': {'vm': 'runtime_core'},
     'runtime_execute': {'vm': 'runtime_step'},
     'runtime_sched': {'vm': 'runtime_step'},
